@@ -204,6 +204,13 @@ def _check_vector(acc, n, M, g2, g4):
         acc.ok()
     if len(n) <= 5 and N <= 8:
         import pandas as pd
+        # categories that are (V gene, CDR3) tuples held in a Series
+        tl = pd.Series([("v%d" % i, "c%d" % (i % 2)) for i in sample])
+        r = acc.call(pyrepseq.pc, tl)
+        if raised(r) or float(r) != float(target_pc):
+            acc.fail("pc/biased/tuple-labels", case, target_pc, r)
+        else:
+            acc.ok()
         rows = (("X", None), (None, "X"), ("X", "X"), (None, None), ("Y", None))
         df = pd.DataFrame({"CDR3A": [rows[i][0] for i in sample], "CDR3B": [rows[i][1] for i in sample]})
         r = acc.call(pyrepseq.pc, df)
